@@ -269,7 +269,10 @@ func genC16(g *gen, seed int64) *Program {
 		b.OutMD = append(b.OutMD, KV{K: "x-sim-rpc", V: RawStr(fmt.Sprint(b.ID))})
 	}
 	for _, r := range p.RPCs {
-		if g.p(g.k.pCancel) {
+		// no cancellation on the grpc-go reference carrier: its internal
+		// selects (data vs. reset, both ready) are decided by the Go runtime,
+		// not by the simulator, and would not replay
+		if r.Transport != TGRPC && g.p(g.k.pCancel) {
 			p.Faults = append(p.Faults, Fault{Kind: "cancel", RPC: r.ID, Step: g.pick(total + 5)})
 		}
 	}
@@ -410,7 +413,7 @@ func genC17(g *gen, seed int64) *Program {
 		total += g.estLen(r)
 		p.RPCs = append(p.RPCs, r)
 	}
-	if g.p(0.2) {
+	if g.p(0.2) && p.RPCs[0].Transport != TGRPC {
 		p.Faults = append(p.Faults, Fault{Kind: "cancel", RPC: 0, Step: g.pick(total + 5)})
 	}
 	return p
